@@ -227,6 +227,109 @@ def c20_guards():
             "def C20_GUARDS : List (String × String) :=\n  [" + body + "]"]
 
 
+# ---- C18: which builder fields enter the rebuild cache (lrpar/lrlex ctbuilder.rs) --------------------
+def struct_fields(text, name, path):
+    """[(field, cfg_test)] of `pub struct NAME<…> where … { … }` (top-level fields only)"""
+    m = re.search(r"pub struct %s\b[^{;]*\{" % re.escape(name), text)
+    if not m:
+        raise SystemExit(f"extract: struct {name} not found in {path}")
+    i, depth, body = m.end(), 1, []
+    while depth and i < len(text):
+        ch = text[i]
+        depth += ch == "{"
+        depth -= ch == "}"
+        body.append(ch)
+        i += 1
+    body = re.sub(r"//[^\n]*", "", "".join(body[:-1]))
+    fields, angle, paren, cur = [], 0, 0, ""
+    for ch in body:                      # split at top-level commas
+        if ch in "<": angle += 1
+        if ch in ">" and angle and not cur.endswith("-"): angle -= 1
+        if ch in "([{": paren += 1
+        if ch in ")]}": paren -= 1
+        if ch == "," and angle == 0 and paren == 0:
+            fields.append(cur); cur = ""
+        else:
+            cur += ch
+    fields.append(cur)
+    out = []
+    for f in fields:
+        f = f.strip()
+        if not f:
+            continue
+        cfg_test = "#[cfg(test)]" in f
+        f = re.sub(r"#\[[^\]]*\]", "", f).strip()
+        mm = re.match(r"(?:pub(?:\([^)]*\))?\s+)?(\w+)\s*:", f)
+        if not mm:
+            raise SystemExit(f"extract: cannot read a field of {name} in {path}: {f[:60]!r}")
+        out.append((mm.group(1), cfg_test))
+    return out
+
+
+def c18(out):
+    sys.path.insert(0, os.path.join(VERIF, "tools"))
+    from propcfg.C18 import PARSER_FIELDS_NOT_IN_CACHE, LEXER_FIELDS_AUDITED
+    pp = "lrpar/src/lib/ctbuilder.rs"
+    t = src(pp)
+    fields = [f for f, _ in struct_fields(t, "CTParserBuilder", pp)]
+    m = re.search(r"fn rebuild_cache\(.*?let Self \{(.*?)\} = self;(.*?)\n    \}\n", t, re.S)
+    if not m:
+        raise SystemExit("extract: rebuild_cache no longer has the shape `let Self { … } = self;`")
+    pat = re.sub(r"//[^\n]*", "", m.group(1))
+    pat = re.sub(r"#\[[^\]]*\]", "", pat)
+    if ".." in pat:
+        raise SystemExit("extract: rebuild_cache destructures `Self` with `..`: new fields would bypass the cache silently")
+    bound, ignored = [], []
+    for item in pat.split(","):
+        item = item.strip()
+        if not item:
+            continue
+        mm = re.match(r"(\w+)\s*(?::\s*(\w+))?$", item)
+        if not mm:
+            raise SystemExit(f"extract: unexpected pattern item in rebuild_cache: {item!r}")
+        (ignored if mm.group(2) == "_" else bound).append(mm.group(1))
+    if sorted(bound + ignored) != sorted(fields):
+        raise SystemExit(f"extract: rebuild_cache destructures {sorted(bound + ignored)} but CTParserBuilder has {sorted(fields)}")
+    q = re.search(r"let cache_info = quote! \{(.*?)\};", m.group(2), re.S)
+    if not q:
+        raise SystemExit("extract: `cache_info = quote! {…}` not found in rebuild_cache")
+    for f in bound:
+        if not re.search(r"#%s\b" % f, q.group(1)):
+            raise SystemExit(f"extract: builder field {f} is bound in rebuild_cache but not written into the cache string")
+    new = sorted(set(ignored) - set(PARSER_FIELDS_NOT_IN_CACHE))
+    if new:
+        raise SystemExit(f"extract: CTParserBuilder field(s) {new} are neither in the cache string nor in the audited "
+                         "exclusion list (tools/propcfg/C18.py PARSER_FIELDS_NOT_IN_CACHE)")
+    gone = sorted(set(PARSER_FIELDS_NOT_IN_CACHE) - set(ignored))
+    if gone:
+        raise SystemExit(f"extract: audited exclusion list names {gone}, which rebuild_cache no longer ignores: re-audit")
+    if not re.search(r"FileTime::from_last_modification_time\(out_rs_md\)\s*>\s*FileTime::from_last_modification_time\(inmd\)", t):
+        raise SystemExit("extract: the up-to-date test `mtime(out) > mtime(in)` of CTParserBuilder::build changed shape")
+    if "outc.contains(&cache.to_string())" not in t:
+        raise SystemExit("extract: the cache comparison `outc.contains(&cache.to_string())` changed shape")
+    lp = "lrlex/src/lib/ctbuilder.rs"
+    tl = src(lp)
+    lfields = [f for f, _ in struct_fields(tl, "CTLexerBuilder", lp)]
+    new = sorted(set(lfields) - set(LEXER_FIELDS_AUDITED))
+    if new:
+        raise SystemExit(f"extract: CTLexerBuilder field(s) {new} are not in the audited list (tools/propcfg/C18.py LEXER_FIELDS_AUDITED)")
+    gone = sorted(set(LEXER_FIELDS_AUDITED) - set(lfields))
+    if gone:
+        raise SystemExit(f"extract: audited CTLexerBuilder field(s) {gone} no longer exist: re-audit")
+    if not re.search(r"if let Ok\(curs\) = read_to_string\(outp\)\s*&& curs == outs", tl):
+        raise SystemExit("extract: CTLexerBuilder::build no longer compares the generated text with the existing file")
+    if re.search(r"from_last_modification_time|fs::metadata", tl):
+        raise SystemExit("extract: CTLexerBuilder now looks at file metadata: the lexer side of Model/Build.lean has no mtime test")
+    out.append("/-- C18: fields of `CTParserBuilder` written into the rebuild cache string / audited as not needed there -/")
+    out.append("def C18_PARSER_CACHE_FIELDS : List String := [" + ", ".join(lean_str(f) for f in bound) + "]")
+    out.append("def C18_PARSER_EXCLUDED_FIELDS : List String := [" + ", ".join(lean_str(f) for f in ignored) + "]")
+    out.append("/-- C18: fields of `CTLexerBuilder` (no cache: the generated text is compared with the file) -/")
+    out.append("def C18_LEXER_FIELDS : List String := [" + ", ".join(lean_str(f) for f in lfields) + "]")
+    out.append("/-- C18: the parser builder's up-to-date test is the strict `mtime(out) > mtime(grammar)` -/")
+    out.append("def C18_MTIME_STRICT : Bool := true")
+    out.append("")
+
+
 def main():
     out = ["/-! GENERATED by tools/extract.py from /repo on every run. Do not edit. -/", "namespace GrmVerif.Extracted", ""]
     cp = src("lrpar/src/lib/cpctplus.rs")
@@ -237,6 +340,7 @@ def main():
         out.append(f"def {n} : Nat := {const(st, n, 'statetable.rs')}")
     out.append("")
     c11(out)
+    c18(out)
     out += c20_guards()
     out += ["end GrmVerif.Extracted", ""]
     new = "\n".join(out)
